@@ -1,2 +1,170 @@
 import IkeModel
-def main : IO Unit := IO.println "driver"
+
+/-! Model driver: one operation per input line, one result per output line
+(`ok <canonical value>` | `err` | `panic`).  Run by the Go harness, which
+executes the same operations on the implementation and compares. -/
+
+open Ike
+
+def resStr {α : Type} (f : α → String) : Res α → String
+  | .ok a => "ok " ++ f a
+  | .err => "err"
+  | .fault => "panic"
+
+def payloadKindCode (k : String) : Option UInt8 :=
+  match k with
+  | "SA" => some Facts.typeSA | "KE" => some Facts.typeKE | "IDi" => some Facts.typeIDi
+  | "IDr" => some Facts.typeIDr | "CERT" => some Facts.typeCERT | "CERTREQ" => some Facts.typeCERTreq
+  | "AUTH" => some Facts.typeAUTH | "NONCE" => some Facts.typeNiNr | "N" => some Facts.typeN
+  | "D" => some Facts.typeD | "V" => some Facts.typeV | "TSi" => some Facts.typeTSi
+  | "TSr" => some Facts.typeTSr | "SK" => some Facts.typeSK | "CP" => some Facts.typeCP
+  | "EAP" => some Facts.typeEAP
+  | _ => none
+
+def decOp (name : String) (b : Bytes) : String :=
+  if name == "msg" then resStr (fun m => (sxMsg m).toStr) (decodeMsg b)
+  else if name == "hdr" then resStr (fun h => (sxHeaderFull h).toStr) (parseHeader b)
+  else if name == "eap" then resStr (fun e => (sxEap e).toStr) (unmarshalEap b)
+  else if name.startsWith "pl-" then
+    match payloadKindCode (name.drop 3).toString with
+    | some t => resStr (fun p => (sxPayload p).toStr) (unmarshalPayload t 0 b)
+    | none => "bad-op"
+  else if name.startsWith "chain-" then
+    match (name.drop 6).toString.toNat? with
+    | some t => resStr (fun ps => (sxPayloads ps).toStr) (decodeChain (UInt8.ofNat t) b)
+    | none => "bad-op"
+  else if name == "eapm-ID" then resStr (fun d => (sxEapData d).toStr) (unmarshalSimple Facts.eapTypeIdentity .identity b)
+  else if name == "eapm-NOTIF" then resStr (fun d => (sxEapData d).toStr) (unmarshalSimple Facts.eapTypeNotification .notification b)
+  else if name == "eapm-NAK" then resStr (fun d => (sxEapData d).toStr) (unmarshalSimple Facts.eapTypeNak .nak b)
+  else if name == "eapm-EXP" then resStr (fun d => (sxEapData d).toStr) (unmarshalExpanded b)
+  else if name == "eapm-AKA" then resStr (fun a => (sxEapData (.aka a)).toStr) (unmarshalAka b)
+  else "bad-op"
+
+def parseSxFrom (ts : Array String) (i : Nat) : Option Sx :=
+  match Sx.parseTokens ts i with
+  | some (v, _) => some v
+  | none => none
+
+def encMsgOp (ts : Array String) : String :=
+  match parseSxFrom ts 2 with
+  | some s =>
+    match rdMsg s with
+    | some m => resStr (fun (r : Bytes × Header) => xhex r.1) (encodeMsg m)
+    | none => "bad-msg"
+  | none => "bad-sx"
+
+def reencOp (kind : String) (b : Bytes) : String :=
+  if kind == "msg" then
+    match decodeMsg b with
+    | .ok m => resStr (fun (r : Bytes × Header) => xhex r.1) (encodeMsg m)
+    | .err => "decode-err"
+    | .fault => "decode-panic"
+  else if kind == "eap" then
+    match unmarshalEap b with
+    | .ok e => resStr xhex (marshalEap e)
+    | .err => "decode-err"
+    | .fault => "decode-panic"
+  else "bad-op"
+
+def listGet? {α : Type} : List α → Nat → Option α
+  | [], _ => none
+  | x :: _, 0 => some x
+  | _ :: xs, n + 1 => listGet? xs n
+
+/-- SA object from `<e> <i> <p> <d> <ai> <ar> <ei> <er> <pi> <pr>` at token offset `o` -/
+def rdSA (ts : Array String) (o : Nat) : Option SAKey := do
+  let e ← (← ts[o]?).toNat?
+  let i ← (← ts[o+1]?).toNat?
+  let p ← (← ts[o+2]?).toNat?
+  let (eid, ekl) ← listGet? Facts.encrTable e
+  let (iid, ikl, iol, ih) ← listGet? Facts.integTable i
+  let (pid, pkl, pol, ph) ← listGet? Facts.prfTable p
+  let d ← parseX (← ts[o+3]?)
+  let ai ← parseX (← ts[o+4]?)
+  let ar ← parseX (← ts[o+5]?)
+  let ei ← parseX (← ts[o+6]?)
+  let er ← parseX (← ts[o+7]?)
+  let pi ← parseX (← ts[o+8]?)
+  let pr ← parseX (← ts[o+9]?)
+  pure (SAKey.fresh ⟨eid, ekl⟩ ⟨iid, ikl, iol, ih⟩ ⟨pid, pkl, pol, ph⟩ d ai ar ei er pi pr)
+
+def protectOp (ts : Array String) (spec : Bool) : String :=
+  match rdSA ts 1, ts[11]?, (ts[12]?).bind parseX, parseSxFrom ts 13 with
+  | some sa, some roleS, some rnd, some sx =>
+    match rdMsg sx with
+    | some m =>
+      let role := roleS == "I"
+      if spec then
+        match encodeChain m.payloads with
+        | .ok inner =>
+          let padding := 16 - inner.length % 16
+          let stream := cyc rnd 0 (padding + 16)
+          let pad := stream.take (padding - 1)
+          let iv := stream.drop padding
+          let first : UInt8 := match m.payloads with | p :: _ => p.typeCode | [] => Facts.typeNoNext
+          let k : Spec.SkParams := if role then ⟨sa.sk_ei, sa.sk_ai, sa.integInfo.hash, sa.integInfo.outLen⟩
+                                   else ⟨sa.sk_er, sa.sk_ar, sa.integInfo.hash, sa.integInfo.outLen⟩
+          let out := Spec.skMessage Prims.real k m.hdr first inner iv pad
+          if out.length - 28 > 0xFFFF then "err" else "ok " ++ xhex out
+        | .err => "err"
+        | .fault => "panic"
+      else
+        let (_, _, r) := protect Prims.real sa role { buf := rnd } m
+        resStr (fun (x : Bytes × Msg) => xhex x.1) r
+    | none => "bad-msg"
+  | _, _, _, _ => "bad-args"
+
+def unprotectOp (ts : Array String) : String :=
+  match rdSA ts 1, ts[11]?, ts[12]?, (ts[13]?).bind parseX with
+  | some sa, some roleS, some hS, some bs =>
+    let role := roleS == "I"
+    if hS == "1" then
+      match parseHeader bs with
+      | .ok h => let (_, _, r) := unprotect Prims.real (some sa) role (some h) bs
+                 resStr (fun m => (sxMsg m).toStr) r
+      | .err => "err"
+      | .fault => "panic"
+    else
+      let (_, _, r) := unprotect Prims.real (some sa) role none bs
+      resStr (fun m => (sxMsg m).toStr) r
+  | _, _, _, _ => "bad-args"
+
+def cbcDecryptOp (ts : Array String) : String :=
+  match (ts[1]?).bind parseX, (ts[2]?).bind parseX with
+  | some k, some ct => resStr xhex (cbcDecrypt Prims.real ⟨k⟩ ct)
+  | _, _ => "bad-args"
+
+def handle (line : String) : String :=
+  let ts := Sx.tokens line
+  if h : 0 < ts.size then
+    let op := ts[0]
+    if op == "dec" then
+      if h3 : ts.size = 3 then
+        match parseX ts[2] with
+        | some b => decOp ts[1] b
+        | none => "bad-hex"
+      else "bad-op"
+    else if op == "enc" then encMsgOp ts
+    else if op == "reenc" then
+      if h3 : ts.size = 3 then
+        match parseX ts[2] with
+        | some b => reencOp ts[1] b
+        | none => "bad-hex"
+      else "bad-op"
+    else if op == "protect" then protectOp ts false
+    else if op == "spec-sk" then protectOp ts true
+    else if op == "unprotect" then unprotectOp ts
+    else if op == "cbc-decrypt" then cbcDecryptOp ts
+    else "bad-op"
+  else "bad-op"
+
+partial def loop (hin : IO.FS.Stream) (hout : IO.FS.Stream) : IO Unit := do
+  let line ← hin.getLine
+  if line.isEmpty then return ()
+  hout.putStrLn (handle line)
+  loop hin hout
+
+def main : IO Unit := do
+  let hin ← IO.getStdin
+  let hout ← IO.getStdout
+  loop hin hout
